@@ -379,6 +379,25 @@ def run(tier, seed):
     n = 1500 if tier == 'quick' else 40000
     runner.run_generated(rep, lambda ch: gen_pair(ch, tier), check_pair, n, workers,
                          shrink_s=20 if tier == 'quick' else 120)
+    # one element with associated fields of two widths, in messages stored both ways and decoded one after the other by the
+    # shared decoder: each storage form gives the data
+    from vlib.compare import first_value_diff as _fvd
+    for tag, cases in gmsg.assoc_width_twin_runs():
+        for case in cases:
+            o = sut.call(decoder().process, case.bytes)
+            bad = None
+            if not o.ok:
+                bad = ('decoder raised %s@%s' % (o.exc_type, o.frame), {'error': o.msg})
+            else:
+                ob = sut.observe(o.value)
+                for k in range(case.nsub):
+                    d = _fvd(ob['values'][k], case.values()[k])
+                    if d is not None or ob['labels'][k] != case.labels()[k]:
+                        bad = ('the stored form does not decode to the data', {'subset': k, 'index': d and d[0], 'got': d and d[1], 'expected': d and d[2]})
+                        break
+            rep.add_case('assoc_twin:' + case.key(), True, ['same_element_with_two_associated_field_widths'], None)
+            if bad:
+                rep.add_failure('associated field widths (%s): %s' % (tag, bad[0]), bad[1], case.to_json(), stage='associated field widths')
     fuzz.run_structured(rep, 'checks.c05', _fuzz_gen, tier)
     return rep.finish(SIGNATURES)
 
